@@ -34,7 +34,7 @@ LEVEL_TEXT = ("Coq theorems about the model of the cache + browser logic. Histor
               "chain ends: C04_followup_stops_without_ptr; the checker's expected_followup follows). "
               "The universal statement chk_C04 = true is REFUTED for the faithful model in the four classes that stay "
               "as known findings (one vm_compute witness each: dotted label, record refreshed in its last second, second "
-              "SRV target, browse over an expiring PTR - the last found by the proof of clause F in round 5 and confirmed on "
+              "SRV target, PTR withdrawn in the message that announces it (round 9), browse over an expiring PTR - the last found by the proof of clause F in round 5 and confirmed on "
               "the daemon). Model tied to the Rust daemon by the K6 simulation (model trace = projected implementation "
               "trace); the extracted viol_C04 runs on the implementation's events, questions and requested wake-ups")
 TECHNIQUE = ("machine-checked proof in Coq (component theorems, refutation witnesses by vm_compute) + model/implementation "
@@ -50,22 +50,22 @@ RULE = ("all partitions/orders/duplications of an instance's record set (PTR, SR
         "expire; stop_browse inside the follow-up window, browse again, PTR-only again (the follow-up question must come: "
         "seeded change C04-m6), also with a subtype that shares the instance and stays browsed (cached while the type was not browsed: additional section, or beside a browsed subtype's PTR); timer-exact and late schedules; non-trivial = at least one event or follow-up question")
 TRUSTED = bc.TRUSTED_COMMON
-PARTIAL = ("History-level `wf_history h -> ~Known_C04 h -> chk_C04 (run_history h) = true` is a theorem for two of viol_C04's "
-           "failure kinds: F04_order (clause F, outside known_browse_expiring) and F04_complete (round 8, outside "
-           "complete_class). F04_wake stays out (no timers in the model). NOT proved over histories: "
-           "F04_followup / F04_many - proved is the model side (an instance in pending_resolves has a Resolve queued, try "
-           "1..3, due within 500 ms, over all histories; a try asks exactly the expected question; the chain ends early "
-           "when no PTR points to the instance); missing is the checker-side correspondence, worked out in round 8: "
-           "non-stale obligation (inst, due, n) <-> queued entry (due, RResolve inst n) exactly; stale obligation (inst, "
-           "due) => some queued entry for inst due not later (then the checker's sat drops it when that entry fires); "
-           "pending => open episode or up or obligation, outside known_browse_expiring; the any-counter of F04_many = "
-           "number of tries since the last relevant delivery or browse call, which also needs 'no two found instances "
-           "with the same lower-cased labels'. F04_labels - only under an explicit hypothesis on the datagrams (for every "
-           "PTR record the decoder reads from a datagram, the lower-cased labels of name_labels(alias) are among the "
-           "reference parser's PTR targets of that datagram: decode agrees with ref_parse AND the name is outside "
-           "known_dotted; C02 proves only ref_parse => decode); the invariant is 'every cached PTR alias and every queued "
-           "Resolve instance has its labels among the targets, and ANY questions only come from Resolve tries'; not "
-           "written in Coq for lack of time. "
+PARTIAL = ("Status of viol_C04's failure kinds over all histories of the model: F04_order and F04_complete are excluded by "
+           "theorems about viol_C04 (outside known_browse_expiring / complete_class). F04_followup and F04_many are NOT "
+           "excluded as statements about viol_C04: proved is the clause in the property's own terms on the model's trace "
+           "(C04_followups_as_specified_partial, C04_queued_due_is_tried, C04_tried_asks_expected, the step theorems, the "
+           "schedule and pending invariants). Missing is the correspondence with the checker's bookkeeping: (i) non-stale "
+           "obligation (inst, due, n) <-> queued (due, RResolve inst n), (ii) stale obligation => a queued try due not "
+           "later, (iii) pending => open episode or up or obligation. Round 9 found that (iii) is false as it stands: an "
+           "instance found on a second channel while still up on the first (no obligation, not open) and invalid becomes "
+           "pending; stop_browse of the first name leaves it pending, neither up nor open, and the checker would open a "
+           "non-stale obligation at the next ServiceFound while the model continues the old series - a further class "
+           "(stop_browse while an instance is up under two names) is needed, and F04_many needs 'no two found instances "
+           "with the same lower-cased labels'. No generated history shows such a failure. F04_labels: not proved; needs "
+           "the explicit datagram hypothesis (for every PTR record the decoder reads, the lower-cased labels of "
+           "name_labels(alias) are among the reference parser's PTR targets of that datagram; C02 proves only ref_parse => "
+           "decode) and the invariant 'cached PTR aliases and queued Resolve instances have their labels among the "
+           "targets; ANY questions only come from Resolve tries'. F04_wake: outside the model (no timers). "
            "Outside the known classes the statement is checked by the monitor on model and implementation for every "
            "generated history. 'At least one address in the interface's subnet' is not used by the code and not required. "
            "Requested wake-ups are checked against the monitor's due times, the model does not compute timers.")
@@ -80,6 +80,7 @@ KNOWN = {
     "complete:refresh-only": "C04-last-second-refresh-not-new",
     "complete:srv-targets": "C04-second-srv-target",
     "order:browse-expiring-ptr": "C04-browse-over-expiring-ptr",
+    "followup:withdrawn-same-message": "C04-found-withdrawn-in-same-message",
 }
 
 
@@ -99,6 +100,7 @@ def generate(rng, tier):
         ("srvtargets", 20 * k, lambda r, i: bc.gen_special(r, i, "srv-targets")),
         ("brexp", 40 * k, lambda r, i: bc.gen_special(r, i, "browse-expiring")),
         ("stoprebrowse", 120 * k, lambda r, i: bc.gen_special(r, i, "stop-rebrowse")),
+        ("withdrawn", 30 * k, lambda r, i: bc.gen_special(r, i, "found-withdrawn")),
         ("long", 3 * k, bc.gen_long),
     ])
 
